@@ -7,6 +7,9 @@ PF2 == <<<<"lockW","rel">>, <<"lockW","rel">>, <<"lockR","rel">>>>
 PU2 == <<<<"lockR","up","rel">>, <<"lockR","up","rel">>>>
 \* two upgrading readers + a writer that downgrades (1.6M states)
 PU == <<<<"lockR","up","rel">>, <<"lockR","up","rel">>, <<"lockW","down","rel">>>>
+\* a writer that downgrades with a reader and a writer queued behind it; a reader that upgrades with a writer queued behind
+PD == <<<<"lockW","down","rel">>, <<"lockR","rel">>, <<"lockW","rel">>>>
+PUW == <<<<"lockR","up","rel">>, <<"lockW","rel">>, <<"tryR","rel">>>>
 \* try operations
 PT == <<<<"tryW","down","rel">>, <<"tryR","up","rel">>, <<"lockR","rel">>>>
 ====
